@@ -92,4 +92,9 @@ theorem C16_create_models_on_evolved_database (db : String) : createModelsConnec
 /-- every call of the current source hands the alias on (read by the translator on every run) -/
 theorem C16_source_create_models_pass_database : DEvo.Generated.createModelsPassDatabase = true := by decide
 
+/-- every database is evolved from ITS OWN stored signature: the per-database library code (the evolver
+package and utils/evolutions.py) never asks for the current version without naming the database (read by
+the translator on every run) -/
+theorem C16_source_current_version_names_database : DEvo.Generated.currentVersionWithoutAlias = [] := by decide
+
 end DEvo.Props.C16
